@@ -4,6 +4,8 @@ handle's metadata-only answers (contracts/c17_makemeta.py).
 C02: the writer side - writer.make_metadata executed symbolically (one arbitrary column / partition column, every has_nulls mode, text and
 tuple labels), util.norm_col_name, the element construction of writer.find_type, util.check_column_names, and the finite table of
 util.get_column_metadata against the pandas metadata specification (executed enumeration).
+C06: api._pre_allocate (the lists handed to dataframe.empty are aligned with the column request).  C07: the null scan of _dtypes over all row
+groups.  C18: the refusal chain infer_object_encoding -> find_type -> make_metadata -> write happens before the target is touched.
 C01, C17: the writer side + the reader (api.ParquetFile.columns / _get_index / _set_attrs / _parse_header / pandas_metadata /
 check_categories / _dtypes executed symbolically: column independence, override honoured) + the composition tables (executed: what is written
 for dtype D -> footer bytes -> what the handle answers and allocates)."""
@@ -13,14 +15,24 @@ from contracts import c17_makemeta as M
 from vlib.common import PROVED, REFUTED, UNKNOWN
 
 
+# property -> (families of contracts/c17_makemeta.check to run, parts of its executed tables); None = all
+SELECT = {
+    "C01": (None, None), "C02": (None, None), "C17": (None, None),
+    "C06": (("pre_allocate", "tables"), ("prealloc",)),                      # column requests in any order: allocation aligned with the request
+    "C07": (("dtypes",), ()),                                                # null scan over ALL row groups (appended ones included)
+    "C18": (("infer_object_encoding", "find_type", "write", "make_metadata[labels=text,index=list]", "make_metadata[defaults]", "tables"), ("infer",)),
+}
+
+
 def p_makemeta(ctx):
     for a in M.ASSUMED:
         if a not in ctx.assumptions:
             ctx.assumptions.append(a)
     side = "writer" if ctx.prop == "C02" else "both"
-    prop = ctx.prop if ctx.prop in ("C01", "C02", "C17") else "C17"
+    prop = ctx.prop if ctx.prop in SELECT else "C17"
+    families, table_parts = SELECT[prop]
     t0 = time.time()
-    out = M.check(ctx, 10000 if ctx.tier == "quick" else 60000, side)
+    out = M.check(ctx, 10000 if ctx.tier == "quick" else 60000, side, families=families, table_parts=table_parts)
     in_region = {}
     n_rep = 0
     for res in out:
